@@ -203,6 +203,11 @@ fn unit_text(u: &Unit, own: &[Row], sys: &[Row]) -> String {
     }
 }
 
+/// a row that is not put into the index (left id -1: usable only as a part of other words); marked by its reading
+fn non_indexed(r: &Row) -> bool {
+    r.reading.starts_with('非')
+}
+
 fn render(rows: &[Row], sys: &[Row]) -> String {
     let mut s = String::new();
     for (i, r) in rows.iter().enumerate() {
@@ -217,8 +222,8 @@ fn render(rows: &[Row], sys: &[Row]) -> String {
         s.push_str(&format!(
             "{},{},{},{},{},{},{},{},*,{},{},{},{},*\n",
             r.surface,
-            i % 10,
-            (i + 3) % 10,
+            if non_indexed(r) { -1 } else { (i % 10) as i32 },
+            if non_indexed(r) { -1 } else { ((i + 3) % 10) as i32 },
             5000 + (i as i32 % 7) * 100,
             r.surface,
             pos_csv(r.pos),
@@ -270,6 +275,9 @@ fn gen_case(rng: &mut Rng, nusers: usize) -> Case {
     let mut sys: Vec<Row> = vec![];
     for j in 0..nsys {
         let mut r = Row { surface: format!("s{}x", j), reading: format!("ヨ{}", j), pos: rng.below(nsys_pos as u64) as usize, a: vec![], b: vec![], ws: vec![] };
+        if j > 0 && j + 1 < nsys && rng.chance(1, 6) {
+            r.reading = format!("非{}", j);
+        }
         if j > 1 && rng.chance(1, 3) {
             r.a = vec![Unit::Sys(rng.below(j as u64) as usize), Unit::Sys(rng.below(j as u64) as usize)];
             if rng.chance(1, 2) {
@@ -332,7 +340,13 @@ fn gen_case(rng: &mut Rng, nusers: usize) -> Case {
                 0 => rng.below(nsys_pos as u64) as usize,
                 _ => rng.below(NPOOL as u64) as usize,
             };
-            rows.push(Row { surface: format!("u{}w{}", d + 1, j), reading: format!("ユ{}", j), pos, a: vec![], b: vec![], ws: vec![] });
+            // rows that are not indexed (left id -1) in front of / between the ordinary ones: word numbers count ALL rows
+            let hidden = nrows > 1 && j + 1 < nrows && rng.chance(if j == 0 { 2 } else { 1 }, 5);
+            if hidden {
+                rows.push(Row { surface: format!("u{}n{}", d + 1, j), reading: format!("非{}", j), pos, a: vec![], b: vec![], ws: vec![] });
+            } else {
+                rows.push(Row { surface: format!("u{}w{}", d + 1, j), reading: format!("ユ{}", j), pos, a: vec![], b: vec![], ws: vec![] });
+            }
         }
         // inline references against a configured dictionary that already holds user dictionaries used to panic in the
         // builder's BinDictResolver (repaired in the repository, see KNOWN_FINDINGS.txt); they stay in the stream
@@ -903,6 +917,69 @@ fn run_case(sink: &mut Sink, c: &Case, verbose: bool) {
         }
         res_dicts.push(format!("({}, {}, {})", cnu(dno), clist(rows.iter().map(key_term)), clist(res_rows)));
     }
+    // every word through LOOKUP (not by its number): exact-surface lookup of every surface must return exactly the indexed rows
+    // carrying it, each with the dictionary number of its layer and the POS that row declares
+    let mut lookup_mobs: Vec<String> = vec![];
+    {
+        let mut surfaces: Vec<&str> = vec![];
+        for dno in 0..=nlayers {
+            let rows: &Vec<Row> = if dno == 0 { &c.sys } else { &c.users[dno - 1].1 };
+            for r in rows {
+                if !surfaces.contains(&r.surface.as_str()) {
+                    surfaces.push(&r.surface);
+                }
+            }
+        }
+        for sf in surfaces {
+            let got = catch(|| {
+                let mut ml = sudachi::analysis::mlist::MorphemeList::empty(&dict);
+                ml.lookup(sf, sudachi::dic::subset::InfoSubset::all()).map_err(|e| format!("{:?}", e))?;
+                Ok::<_, String>((0..ml.len()).map(|i| { let m = ml.get(i); (m.word_id().as_raw(), m.dictionary_id(), m.is_oov(), m.part_of_speech().to_vec()) }).collect::<Vec<_>>())
+            });
+            let got = match got {
+                Ok(Ok(g)) => g,
+                Ok(Err(e)) => {
+                    fail(format!("lookup of {:?} failed: {}", sf, e), "");
+                    continue;
+                }
+                Err(p) => {
+                    fail(format!("lookup of {:?} panicked: {}", sf, p), "");
+                    continue;
+                }
+            };
+            sink.tag("lookup_checked");
+            let mut want: Vec<u32> = vec![];
+            for dno in 0..=nlayers {
+                let rows: &Vec<Row> = if dno == 0 { &c.sys } else { &c.users[dno - 1].1 };
+                for (i, r) in rows.iter().enumerate() {
+                    if r.surface == sf && !non_indexed(r) {
+                        want.push(((dno as u32) << 28) | i as u32);
+                    }
+                }
+            }
+            for (raw, did, oov, pos) in &got {
+                let dno = (*raw >> 28) as usize;
+                let rows: Option<&Vec<Row>> = if dno == 0 { Some(&c.sys) } else { c.users.get(dno - 1).map(|u| &u.1) };
+                let declared: Vec<Vec<String>> = rows.map(|rs| rs.iter().filter(|r| r.surface == sf && !non_indexed(r)).map(|r| pos_fields(r.pos)).collect()).unwrap_or_default();
+                if *oov || *did != dno as i32 {
+                    fail(format!("lookup of {:?}: entry (dictionary {}, word {}) reports dictionary_id {} / is_oov {}", sf, dno, raw & 0x0fff_ffff, did, oov), "");
+                }
+                if !declared.contains(pos) {
+                    fail(format!("lookup of {:?} returns word ({}, {}) with POS {:?}; the rows of dictionary {} with that surface declare {:?}", sf, dno, raw & 0x0fff_ffff, pos, dno, declared), "");
+                }
+                lookup_mobs.push(cpair(&cn(*raw), &cz(*did as i64)));
+            }
+            let mut g: Vec<u32> = got.iter().map(|x| x.0).collect();
+            g.sort();
+            want.sort();
+            if g != want {
+                fail(format!("lookup of {:?} returns words {:?}, the indexed rows with that surface are {:?} ((dictionary << 28) | row number)", sf, g, want), "");
+            }
+            if verbose {
+                println!("impl lookup {:?} -> {:?}; CSV rows {:?}", sf, got, want);
+            }
+        }
+    }
     // system words must read the same with and without user dictionaries
     match (&base_view, &sys_view(&dict, c.sys.len())) {
         (Ok(a), Ok(b)) => {
@@ -913,7 +990,7 @@ fn run_case(sink: &mut Sink, c: &Case, verbose: bool) {
         (_, Err(p)) | (Err(p), _) => fail(format!("reading system words panicked: {}", p), ""),
     }
     // morpheme level: dictionary_id and POS through the tokenizer, including OOV
-    let mut mobs = vec![];
+    let mut mobs = lookup_mobs;
     let mut text = String::from(PROBE);
     for dno in 0..=nlayers {
         let rows: &Vec<Row> = if dno == 0 { &c.sys } else { &c.users[dno - 1].1 };
@@ -1179,6 +1256,19 @@ pub fn run(args: &Args) {
         let c = Case { sys, plugins: vec![Plug::simple(0, 0)], users: vec![(false, u1), (true, u2)], dup: vec![None, None], file_route: false, rewrite };
         run_case(&mut sink, &c, false);
         sink.tag("directed_katakana_join");
+    }
+    // directed: rows that are not indexed in front of and between ordinary rows, in the system and in user dictionaries
+    // (both build routes): word numbers count all rows, so lookup must still find every word with its own POS
+    for configured in [false, true] {
+        let mk = |s: &str, rd: &str, pos: usize| Row { surface: s.into(), reading: rd.into(), pos, a: vec![], b: vec![], ws: vec![] };
+        let sys = vec![mk("s0x", "ヨ0", 0), mk("s1n", "非1", 1), mk("s2x", "ヨ2", 2), mk("s3x", "ヨ3", 1)];
+        let mut u1 = vec![mk("u1n0", "非0", 7), mk("u1w1", "ユ1", 5), mk("u1n2", "非2", 3), mk("u1w3", "ユ3", 1), mk("u1w4", "ユ4", 8)];
+        u1[3].a = vec![Unit::Own(0), Unit::Own(2)];
+        u1[4].a = vec![Unit::Sys(1), Unit::Inline(true, 0)];
+        let u2 = vec![mk("u2w0", "ユ0", 6), mk("u2n1", "非1", 6), mk("u2w2", "ユ2", 9)];
+        let c = Case::plain(sys, vec![Plug::simple(0, 0)], vec![(configured, u1), (!configured, u2)]);
+        run_case(&mut sink, &c, false);
+        sink.tag("directed_non_indexed_rows_first_and_between");
     }
     // directed: 14 user dictionaries accepted, the 15th rejected
     for n in [14usize, 15] {
